@@ -385,56 +385,146 @@ def run(chk):
             chk.finding("extract|header-len|%s" % sorted(norm, key=str), rule="R-SAUCE-AFFINE", where="%s:%s" % (rb.file, rb.line), fn="SauceData::extract",
                         what="sauce_header_len is not {129, 134 + 64 * num_comments}: %s" % sorted(norm, key=str))
     # ================================================================== R-SAUCE-CUT
+    # What the loaders are handed is a prefix of `bytes` whose length is bytes.len() or bytes.len() minus the record's
+    # sauce_header_len - followed through the definitions of the locals involved (moves, reborrows, match arms), whatever they
+    # are called and wherever the slice is formed.
     leb = ExprBuilder(lb)
-    # the content length: the local that ends the RangeTo handed to the loaders
-    lens = []
-    for bi, t in lb.calls():
-        if "load_buffer" in (t["callee"].get("resolved") or t["callee"].get("path") or ""):
-            for a in t["args"]:
-                e = leb.operand(a)
-                x = e
-                while x[0] in ("ref", "deref"):
-                    x = x[1]
-                if x[0] == "call" and x[1].endswith("::index") and len(x[2]) == 2 and x[2][1][0] == "agg" if False else False:
-                    pass
-            m = re.search(r"RangeTo\{(\w+)\}", show(leb.call_expr(t)))
-            if m:
-                for l in range(len(lb.locals)):
-                    if lb.lname(l) == m.group(1) and l not in lens:
-                        lens.append(l)
-    if chk.anchor(len(lens) == 1, "R-SAUCE-CUT", "Buffer::from_bytes hands the loaders &bytes[..<one local>]"):
-        l = lens[0]
-        lname = lb.lname(l)
-        shapes = []
-        for bi, k in lb.defs.get(l, []):
-            if k == "term":
-                shapes.append(show(leb.call_expr(lb.blocks[bi]["term"])))
-            else:
-                shapes.append(show(leb.rvalue(lb.blocks[bi]["stmts"][k]["rv"])))
-        chk.sample("definitions of `len` in from_bytes: %s" % shapes)
-        for s_ in shapes:
-            s2 = s_.replace(" ", "")
-            n_ = re.escape(lname)
-            ok = re.fullmatch(r"len\(&?\*?\w+\)", s2) is not None \
-                or re.fullmatch(r"\(%s-.*sauce_header_len.*\)" % n_, s2) is not None \
-                or re.fullmatch(r"saturating_sub\(%s,.*sauce_header_len\)" % n_, s2) is not None
-            chk.obligation(ok)
-            if not ok:
-                chk.finding("from_bytes|len-def|%s" % s_[:60], rule="R-SAUCE-CUT", where="%s:%s" % (lb.file, lb.line), fn="Buffer::from_bytes",
-                            what="the content length handed to the loaders is also assigned `%s`: it must be bytes.len() minus exactly the SAUCE header length" % s_[:80])
-        chk.floor("R-SAUCE-CUT", "definitions of the content length", len(shapes), 2)
-        # and the loaders receive bytes[..len]
+    bytes_param = [i for i in range(1, lb.argc + 1) if lb.tys(i) == "&[u8]"]
+    if chk.anchor(len(bytes_param) == 1, "R-SAUCE-CUT", "anchor missing: the &[u8] parameter of Buffer::from_bytes"):
+        BP = bytes_param[0]
+
+        def single_defs(l):
+            return lb.defs.get(l, [])
+
+        def is_bytes(op, depth=0):
+            """the operand is (a reborrow / copy of) the bytes parameter"""
+            pj = op.get("move") or op.get("copy")
+            if pj is None or depth > 6:
+                return False
+            if pj["l"] == BP and all(el == "*" for el in (pj.get("p") or ())):
+                return True
+            if pj.get("p"):
+                return False
+            ds = single_defs(pj["l"])
+            if len(ds) != 1 or ds[0][1] == "term":
+                return False
+            rv = lb.blocks[ds[0][0]]["stmts"][ds[0][1]]["rv"]
+            if rv["k"] == "use":
+                return is_bytes(rv["a"], depth + 1)
+            if rv["k"] == "ref" and all(el == "*" for el in (rv["p"].get("p") or ())):
+                return is_bytes({"copy": {"l": rv["p"]["l"]}}, depth + 1)
+            return False
+
+        in_loop = set()
+        for hd in lb.loop_heads():
+            in_loop |= set(lb.natural_loop(hd))
+
+        def len_shapes(op, depth=0, visiting=()):
+            """[(ok, text)] over every definition of the length operand"""
+            if "const" in op:
+                return [(False, "constant %s" % op["const"].get("val"))]
+            pj = op.get("move") or op.get("copy")
+            if pj is None or pj.get("p") or depth > 6:
+                return [(False, show(leb.operand(op))[:60])]
+            if pj["l"] in visiting:
+                # `len = len.saturating_sub(header)`: the local updated from itself (once: the statement is checked not to sit in a loop)
+                return [(True, "itself")]
+            visiting = tuple(visiting) + (pj["l"],)
+            out = []
+            for bi, k in single_defs(pj["l"]):
+                if bi in in_loop and len(single_defs(pj["l"])) > 1:
+                    out.append((False, "redefined inside a loop"))
+                    continue
+                if k == "term":
+                    t = lb.blocks[bi]["term"]
+                    path = t["callee"].get("resolved") or t["callee"].get("path") or ""
+                    if path.endswith("<impl [T]>::len") and is_bytes(t["args"][0]):
+                        out.append((True, "bytes.len()"))
+                    elif path.endswith("::saturating_sub") and "sauce_header_len" in show(leb.operand(t["args"][1])):
+                        out += [(ok, "saturating_sub(%s, header)" % tx) for ok, tx in len_shapes(t["args"][0], depth + 1, visiting)]
+                    else:
+                        out.append((False, show(leb.call_expr(t))[:60]))
+                    continue
+                rv = lb.blocks[bi]["stmts"][k]["rv"]
+                if rv["k"] == "use":
+                    src = rv["a"].get("move") or rv["a"].get("copy")
+                    if src is not None and src.get("p") and len(src["p"]) == 1 and src["p"][0] != "*" and src["p"][0][0] == "f" and src["p"][0][1] == 0:
+                        # the value of a checked subtraction: X - header
+                        ds2 = single_defs(src["l"])
+                        rv2 = lb.blocks[ds2[0][0]]["stmts"][ds2[0][1]]["rv"] if len(ds2) == 1 and ds2[0][1] != "term" else None
+                        if rv2 is not None and rv2["k"] == "bin" and rv2["op"] in ("SubO", "Sub") and "sauce_header_len" in show(leb.operand(rv2["b"])):
+                            out += [(ok, "%s - header" % tx) for ok, tx in len_shapes(rv2["a"], depth + 1, visiting)]
+                        else:
+                            out.append((False, show(leb.rvalue(rv))[:60]))
+                    else:
+                        out += len_shapes(rv["a"], depth + 1, visiting)
+                elif rv["k"] == "bin" and rv["op"] in ("Sub",) and "sauce_header_len" in show(leb.operand(rv["b"])):
+                    out += [(ok, "%s - header" % tx) for ok, tx in len_shapes(rv["a"], depth + 1, visiting)]
+                else:
+                    out.append((False, show(leb.rvalue(rv))[:60]))
+            return out or [(False, "no definition")]
+
+        def slice_shapes(op, depth=0):
+            """[(ok, text)] over every definition of the slice operand handed to a loader"""
+            if is_bytes(op):
+                return [(True, "bytes")]
+            pj = op.get("move") or op.get("copy")
+            if pj is None or pj.get("p") or depth > 8:
+                return [(False, show(leb.operand(op))[:60])]
+            out = []
+            for bi, k in single_defs(pj["l"]):
+                if k == "term":
+                    t = lb.blocks[bi]["term"]
+                    path = t["callee"].get("resolved") or t["callee"].get("path") or ""
+                    if path.endswith("::index") and len(t["args"]) == 2 and is_bytes(t["args"][0]):
+                        rng = leb.operand(t["args"][1])
+                        x = rng
+                        while x[0] in ("ref", "deref"):
+                            x = x[1]
+                        if x[0] == "agg" and str(x[1]).endswith("RangeTo::RangeTo"):
+                            # the end of the range: the operand of the aggregate
+                            rp = t["args"][1].get("move") or t["args"][1].get("copy")
+                            ds2 = single_defs(rp["l"]) if rp is not None and not rp.get("p") else []
+                            rv2 = lb.blocks[ds2[0][0]]["stmts"][ds2[0][1]]["rv"] if len(ds2) == 1 and ds2[0][1] != "term" else None
+                            if rv2 is not None and rv2["k"] == "agg":
+                                out += [(ok, "&bytes[..%s]" % tx) for ok, tx in len_shapes(rv2["ops"][0])]
+                            else:
+                                out.append((False, show(rng)[:60]))
+                        elif x[0] == "agg" and str(x[1]).endswith("RangeFull"):
+                            out.append((True, "&bytes[..]"))
+                        else:
+                            out.append((False, "bytes[%s]" % show(rng)[:50]))
+                    else:
+                        out.append((False, show(leb.call_expr(t))[:60]))
+                    continue
+                rv = lb.blocks[bi]["stmts"][k]["rv"]
+                if rv["k"] == "use":
+                    out += slice_shapes(rv["a"], depth + 1)
+                elif rv["k"] == "ref" and all(el == "*" for el in (rv["p"].get("p") or ())):
+                    out += slice_shapes({"copy": {"l": rv["p"]["l"]}}, depth + 1)
+                else:
+                    out.append((False, show(leb.rvalue(rv))[:60]))
+            return out or [(False, "no definition")]
         nslice = 0
+        ndef = 0
         for bi, t in lb.calls():
-            e = show(leb.call_expr(t))
-            if "load_buffer" in e:
-                nslice += 1
-                ok = ("RangeTo{%s}" % lname) in e
-                chk.obligation(ok)
-                if not ok:
-                    chk.finding("from_bytes|loader-arg|%s" % e[:60], rule="R-SAUCE-CUT", where="%s:%s" % (lb.file, t["line"]), fn="Buffer::from_bytes",
-                                what="a loader is not handed `&bytes[..len]`: %s" % e[:100])
+            if "load_buffer" not in (t["callee"].get("resolved") or t["callee"].get("path") or ""):
+                continue
+            # the slice argument: the one of type &[u8]
+            sl = [a for a in t["args"] if leb.b.tys((a.get("move") or a.get("copy") or {"l": 0})["l"]) == "&[u8]" and not (a.get("move") or a.get("copy") or {}).get("p")]
+            if not chk.anchor(len(sl) == 1, "R-SAUCE-CUT", "a load_buffer call in from_bytes with one &[u8] argument"):
+                continue
+            nslice += 1
+            shapes = slice_shapes(sl[0])
+            ndef += len(shapes)
+            bad = sorted({tx for ok, tx in shapes if not ok})
+            chk.obligation(not bad)
+            if bad:
+                chk.finding("from_bytes|loader-arg", rule="R-SAUCE-CUT", where="%s:%s" % (lb.file, t["line"]), fn="Buffer::from_bytes",
+                            what="a loader may be handed something else than a prefix of `bytes` of length bytes.len() or bytes.len() - sauce_header_len: %s" % "; ".join(bad)[:200])
+        chk.sample("content slices handed to the loaders: %d calls, %d definitions followed" % (nslice, ndef))
         chk.floor("R-SAUCE-CUT", "load_buffer calls in from_bytes", nslice, 2)
+        chk.floor("R-SAUCE-CUT", "definitions of the content slice / length followed", ndef, 2)
     # ================================================================== R-SAUCE-EXACT
     an2 = Analyzer(f, interproc=ip)
     an2.analyze(rb, collect=False)
